@@ -6,12 +6,12 @@ import PolytuneModel.Server.Net
     no permit held. -/
 namespace PolytuneModel.Server
 
-theorem C13_n2_leader0 : (report Cfg.pinned ⟨2, 0, [true, true], [false, false]⟩ 60).2.2 = (0, 0) := by decide +kernel
-theorem C13_n2_leader1_consts : (report Cfg.pinned ⟨2, 1, [true, false], [true, false]⟩ 60).2.2 = (0, 0) := by decide +kernel
-theorem C13_n2_both_consts_no_dest : (report Cfg.pinned ⟨2, 0, [false, false], [true, true]⟩ 60).2.2 = (0, 0) := by decide +kernel
+theorem C13_n2_leader0 : (report Cfg.current ⟨2, 0, [true, true], [false, false]⟩ 60).2.2 = (0, 0) := by decide +kernel
+theorem C13_n2_leader1_consts : (report Cfg.current ⟨2, 1, [true, false], [true, false]⟩ 60).2.2 = (0, 0) := by decide +kernel
+theorem C13_n2_both_consts_no_dest : (report Cfg.current ⟨2, 0, [false, false], [true, true]⟩ 60).2.2 = (0, 0) := by decide +kernel
 /-- the exploration is complete (the frontier is empty before the fuel runs out): more fuel finds nothing new. -/
-theorem C13_n2_complete : (report Cfg.pinned ⟨2, 0, [true, true], [false, false]⟩ 61).1 = (report Cfg.pinned ⟨2, 0, [true, true], [false, false]⟩ 60).1 := by decide +kernel
+theorem C13_n2_complete : (report Cfg.current ⟨2, 0, [true, true], [false, false]⟩ 61).1 = (report Cfg.current ⟨2, 0, [true, true], [false, false]⟩ 60).1 := by decide +kernel
 /-- non-vacuity: a good terminal state is actually reached. -/
-theorem C13_n2_reaches_end : (report Cfg.pinned ⟨2, 0, [true, true], [false, false]⟩ 60).2.1 = 1 := by decide +kernel
+theorem C13_n2_reaches_end : (report Cfg.current ⟨2, 0, [true, true], [false, false]⟩ 60).2.1 = 1 := by decide +kernel
 
 end PolytuneModel.Server
